@@ -37,6 +37,11 @@
 (* only, so recordings made under such a report must be behaviours of this *)
 (* specification like all others (C10 records some).                       *)
 (*                                                                         *)
+(* Likewise the file system the process sees is not state: a process that  *)
+(* has changed its root to an empty directory (no /proc to look itself up   *)
+(* in) gets the same answers from seccomp(2) and prctl(2); C09 replays a    *)
+(* third of its privileged histories, and C10 records, in such a process.   *)
+(*                                                                         *)
 (* Dev: named deviations, each a behaviour of the pinned commit removed by *)
 (* a "fix:" commit.  Dev = {} is the tree as it is.                        *)
 (*   "R1Ignored"     the seccomp wrapper looked at errno only, so a        *)
